@@ -328,6 +328,11 @@ def main(tier):
             if d:
                 ck.violation('c07:not-invariant:%s' % kind, 'composition (%s) changes under %s' % (d, kind),
                              dict(formula=s, rewritten=s2, returned=r, returned_rewritten=r2))
+    # hand-written strings of every rejection class (so that each class is exercised whatever the seed)
+    for s in ['', ' ', 'H 2', 'H2O ', 'H+', 'H2,5', 'H2O\n', '\xe9', 'H)', '(H', ')H(', '((H)', 'Xx', 'Ha', 'hO', 'Hoo', 'H0', 'H0.0', 'H00', '(H)0', 'H2.5.1', 'H..', 'H.',
+              '.', '(.)', 'Rf', 'Db2O', 'H(Sg)', 'Bh0.5', '2H', '(2H)', 'H(2)', '.Cl', '(.No4)', 'Yb4(Mg)a2.30Zr3', '.uNe', '(H)a', 'H1.a', '.5H', 'H.5', 'H5.', '()', 'H()',
+              'H' + '9' * 100, 'H1e2', 'H-1', 'H1E2']:
+        mon.check(s.encode('latin1'), 'hand')
     # (4) mutants ---------------------------------------------------------------------------------------------------------
     short = sorted(set(p for p in pool if 4 <= len(p) <= 14))
     rng.shuffle(short)
@@ -341,11 +346,6 @@ def main(tier):
     for m in mutants(pf, pa, ps, rng):
         mon.check(m, 'mutant')
         n_mut += 1
-    # hand-written strings of every rejection class (so that each class is exercised whatever the seed)
-    for s in ['', ' ', 'H 2', 'H2O ', 'H+', 'H2,5', 'H2O\n', '\xe9', 'H)', '(H', ')H(', '((H)', 'Xx', 'Ha', 'hO', 'Hoo', 'H0', 'H0.0', 'H00', '(H)0', 'H2.5.1', 'H..', 'H.',
-              '.', '(.)', 'Rf', 'Db2O', 'H(Sg)', 'Bh0.5', '2H', '(2H)', 'H(2)', '.Cl', '(.No4)', 'Yb4(Mg)a2.30Zr3', '.uNe', '(H)a', 'H1.a', '.5H', 'H.5', 'H5.', '()', 'H()',
-              'H' + '9' * 100, 'H1e2', 'H-1', 'H1E2']:
-        mon.check(s.encode('latin1'), 'hand')
     # (5) add_compound_data ----------------------------------------------------------------------------------------------
     n_add = 0
     cache = {}
